@@ -109,13 +109,18 @@ func splitConj(e ast.Expr) []ast.Expr {
 			}
 		}
 		// forall(i, lo, hi, a && b)  ==>  forall(i, lo, hi, a), forall(i, lo, hi, b)
-		if id, ok := x.Fun.(*ast.Ident); ok && (id.Name == "forall" && len(x.Args) == 4 || id.Name == "forallv" && len(x.Args) == 3) {
-			last := len(x.Args) - 1
-			rs := splitConj(x.Args[last])
+		// (an optional trailing trigger argument - forall's 5th, forallv's 4th - is kept)
+		if id, ok := x.Fun.(*ast.Ident); ok && (id.Name == "forall" && (len(x.Args) == 4 || len(x.Args) == 5) || id.Name == "forallv" && (len(x.Args) == 3 || len(x.Args) == 4)) {
+			bodyIx := 3
+			if id.Name == "forallv" {
+				bodyIx = 2
+			}
+			rs := splitConj(x.Args[bodyIx])
 			if len(rs) > 1 {
 				var out []ast.Expr
 				for _, r := range rs {
-					args := append(append([]ast.Expr{}, x.Args[:last]...), r)
+					args := append(append([]ast.Expr{}, x.Args[:bodyIx]...), r)
+					args = append(args, x.Args[bodyIx+1:]...)
 					out = append(out, &ast.CallExpr{Fun: x.Fun, Args: args})
 				}
 				return out
@@ -1164,9 +1169,10 @@ func (ev *evalCtx) call(x *ast.CallExpr, want types.Type) (string, types.Type, e
 		}
 		return "", nil, fmt.Errorf("allocated of %s", t)
 	case "forallv":
-		// forallv(x, T, body): universal quantification over all values of Go type T
-		if err := argc(3); err != nil {
-			return "", nil, err
+		// forallv(x, T, body [, trigger]): universal quantification over all values of Go type
+		// T; the optional trigger term (x in scope) becomes the quantifier's :pattern
+		if len(x.Args) != 3 && len(x.Args) != 4 {
+			return "", nil, fmt.Errorf("forallv expects 3 or 4 arguments")
 		}
 		v, ok := x.Args[0].(*ast.Ident)
 		if !ok {
@@ -1192,6 +1198,15 @@ func (ev *evalCtx) call(x *ast.CallExpr, want types.Type) (string, types.Type, e
 		body, err := n.boolExpr(x.Args[2])
 		if err != nil {
 			return "", nil, err
+		}
+		if len(x.Args) == 4 {
+			trig, _, err := n.expr(x.Args[3], nil)
+			if err != nil {
+				return "", nil, fmt.Errorf("forallv trigger: %v", err)
+			}
+			if strings.Contains(trig, qv) {
+				return fmt.Sprintf("(forall ((%s %s)) (! %s :pattern (%s)))", qv, ev.c.te.sortOf(qt), body, trig), boolT, nil
+			}
 		}
 		return fmt.Sprintf("(forall ((%s %s)) %s)", qv, ev.c.te.sortOf(qt), body), boolT, nil
 	case "list_len", "list_at":
